@@ -2,7 +2,8 @@
 (* Leg G for C11: trees with bto/bcc populated on and off the walked properties, to depth 3. *)
 EXTENDS Clean, Json, IOUtils, SequencesExt, FiniteSetsExt
 Priv(v, n) == With(With(v, "bto", ListOf(<<Iri(Base \o "secret/" \o ToString(n))>>)), "bcc", ListOf(<<Iri(Base \o "hidden/" \o ToString(n)), I2>>))
-Leaf(n) == Priv(With(BaseV("Object", 40 + n), "to", ListOf(<<I1>>)), n)
+\* the public lists mention some of the private recipients too: cleaning must not touch to/cc
+Leaf(n) == Priv(With(With(BaseV("Object", 40 + n), "to", ListOf(<<I1, I2>>)), "cc", ListOf(<<Iri(Base \o "secret/" \o ToString(n)), I3>>)), n)
 ByValue(v) == [v EXCEPT !.ptr = FALSE]
 Level1(n) == { Leaf(n), With(Leaf(n), "attachment", Leaf(n + 1)), With(Leaf(n), "tag", ListOf(<<Leaf(n + 1), I1, Leaf(n + 2)>>)),
                With(Leaf(n), "inReplyTo", Leaf(n + 1)),                                       \* off the walk: must keep its bto/bcc
